@@ -490,6 +490,9 @@ func (vc *VC) queryBody(ob *Obligation) string {
 	for _, d := range sp.defs {
 		sb.WriteString(d + "\n")
 	}
+	for _, d := range vc.ss.late {
+		sb.WriteString(d + "\n")
+	}
 	for _, d := range vc.gassumes {
 		sb.WriteString(d + "\n")
 	}
